@@ -66,7 +66,22 @@ struct IoOps {
         if (binary) { if constexpr (Codec<L>::bin) libWriteBin(g, p); }
         else { if constexpr (Codec<L>::text) libWriteText(g, p); }
     }
-    static G libLoad(const std::string &p, bool binary) {
+    // A user codec that looks ahead after reading its label (as a variable-length label format would): on the last record
+    // the stream comes back with eofbit set and failbit clear. Documented parameter, legal use; the result must not differ.
+    static G libLoadLookahead(const std::string &p) {
+        if constexpr (Codec<L>::bin && !std::is_same<L, BaseGraph::NoLabel>::value) {
+            auto codec = [](std::ifstream &s, L &l) -> std::ifstream & {
+                BaseGraph::io::readBinaryValue(s, l);
+                if (s) (void)s.peek();
+                return s;
+            };
+            if constexpr (A::directed) return BaseGraph::io::loadBinaryEdgeList<BaseGraph::LabeledDirectedGraph, L>(p, codec);
+            else return BaseGraph::io::loadBinaryEdgeList<BaseGraph::LabeledUndirectedGraph, L>(p, codec);
+        }
+        return libLoad(p, true);
+    }
+    static G libLoad(const std::string &p, bool binary, bool lookahead = false) {
+        if (binary && lookahead) return libLoadLookahead(p);
         if (binary) {
             if constexpr (Codec<L>::bin) {
                 if constexpr (A::directed) return libLoadBin<BaseGraph::LabeledDirectedGraph, L>(p);
@@ -199,7 +214,9 @@ struct IoOps {
             bool threw = false;
             std::string what;
             std::unique_ptr<G> loaded;
-            try { loaded.reset(new G(libLoad(p, binary))); } catch (const std::exception &ex) { threw = true; what = ex.what(); }
+            const bool lookahead = binary && (op.b & 2) != 0;
+            if (lookahead) r.res.probes.inc("lookahead_codec_load");
+            try { loaded.reset(new G(libLoad(p, binary, lookahead))); } catch (const std::exception &ex) { threw = true; what = ex.what(); }
             long faultsSeen = c.readFaults;
             (void)faultsSeen;
             simdisk::disarm();
@@ -284,7 +301,7 @@ struct IoOps {
                 writeFileBytes(p2, bytes.substr(0, k));
                 bool threw = false;
                 std::unique_ptr<G> loaded;
-                try { loaded.reset(new G(libLoad(p2, binary))); }
+                try { loaded.reset(new G(libLoad(p2, binary, binary && (op.b & 1) != 0))); }
                 catch (const std::exception &) { threw = true; }
                 catch (...) { r.mismatch(IO15, "non_std_exception", "cut at " + std::to_string(k)); break; }
                 ++r.faultsFired;
@@ -486,6 +503,15 @@ void Runner<A>::doIo(const sim::Op &op) {
     else if (op.k == "loadraw") IoOps<A>::loadRaw(*this, op);
     else if (op.k == "openfail") IoOps<A>::openFail(*this, op);
     else if (op.k == "bigio") bigIo(*this, op);
+    else if (op.k == "earlyio") {
+        // a graph written and read back during static initialisation of the program (before main): same fixed bytes
+        static const unsigned char want[12] = {1, 0, 0, 0, 2, 0, 0, 0, 0x2c, 0x01, 0, 0};
+        const std::string &b = simdisk::earlyBytes();
+        ++faultsFired;
+        res.faults.inc("io_during_static_initialisation");
+        if (b.size() != 12 || std::memcmp(b.data(), want, 12) != 0) mismatch(IO14, "bytes_written_during_static_initialisation", "got " + sim::toHex(b));
+        else if (!simdisk::earlyRoundTrip()) mismatch(IO14, "roundtrip_during_static_initialisation", "");
+    }
 }
 
 } // namespace gs
